@@ -1,14 +1,18 @@
 import Inkayaku.Proofs.SearchRepDeepRoot
+import Inkayaku.Props.C08Transp
 /-!
 # C10 below the root, step 4: where the hypotheses `RHyp` come from
 
-* `rhyp_le2`       – for `D ≤ 2` the line-dependent injectivity `RHashInj` is NOT an extra hypothesis: the nodes at plies 0 and 1
-                     have one line each (`RNode.line_le1`), so it follows from `SearchSim.NoCollision` on the ≤ 2-ply neighbourhood
-                     of the last game position (equal hash ⇒ equal `C06.HashKey`) and the chess facts of
-                     `Proofs/SearchSimHash.lean` (`sameDraft_le2`).  `DeepHyp` = what remains explicit;
+* `rhashInj_le3`, `rhyp_le3` – for `D ≤ 3` the line-dependent injectivity `RHashInj` is NOT an extra hypothesis: it follows from
+                     `SearchSim.NoCollision` on the ≤ 3-ply neighbourhood of the last game position (equal hash ⇒ equal
+                     `C06.HashKey`) and chess facts (`C08Transp.sameDraft_le3`, `transp13`).  The nodes at plies 0 and 1 have one
+                     line each (`RNode.line_le1`); two lines to one ply-2 position differ in the key of their ply-1 position only,
+                     which neither the node (distance 1) nor its children (a ply-1 position never recurs at ply 3) ever match.
+                     `DeepHyp` = what remains explicit;
 * `clines`, `nodesAt`, `rnode_mem` – the nodes of the search tree, enumerated;
-* `rhypB`, `rhyp_of_check` – executable form of ALL hypotheses `RHyp b0 T D`, for every `D` (for `D ≥ 3` this includes the
-                     genuine restriction `RHashInj`: no transposition between different lines inside the tree).
+* `rhypB`, `rhyp_of_check` – executable form of ALL hypotheses `RHyp b0 T D`, for every `D` (for `D ≥ 4` this includes the
+                     genuine restriction `RHashInj`, in its window form `injB`: no transposition between lines that differ inside
+                     the repetition window).
 -/
 namespace Inkayaku.SearchRepDeep
 open Inkayaku.Board Inkayaku.Eval Inkayaku.WF Inkayaku.BoardCongr Inkayaku.Minimax Inkayaku.SpecSearch Inkayaku.Search
@@ -24,7 +28,7 @@ def LineColl (b0 : Board) (T : List Board) (D : Nat) : Prop :=
   ∀ (k : Nat) (Lb : List Board) (p : Board), 1 ≤ k → k ≤ D → RNode b0 T k Lb p → ∀ (i : Nat) (b : Board),
     Lb[i]? = some b → Lb.length - p.halfmove ≤ i → Zobrist.hash b = Zobrist.hash p → HashKey b = HashKey p
 
-/-- the explicit hypotheses for `go depth D`, `D ≤ 2`, after the game `b0 :: T` -/
+/-- the explicit hypotheses for `go depth D`, `D ≤ 3`, after the game `b0 :: T` -/
 structure DeepHyp (b0 : Board) (T : List Board) (D : Nat) : Prop where
   line : IsLine (b0 :: T)
   inv : Inv (T.length + fuelFor D) b0
@@ -36,20 +40,85 @@ structure DeepHyp (b0 : Board) (T : List Board) (D : Nat) : Prop where
   coll : LineColl b0 T D
   mat : material (lastBoard b0 T) ≤ 64
 
-/-- **for `D ≤ 2` no line-dependent hypothesis is needed** -/
-theorem rhyp_le2 {b0 : Board} {T : List Board} {D : Nat} (hD : D ≤ 2) (h : DeepHyp b0 T D) : RHyp b0 T D := by
+/-- a node at ply 2: its line is the game followed by one board `c1 = make last m1`, and the node is `make c1 m2` -/
+theorem RNode.two {b0 : Board} {T : List Board} {Lb : List Board} {p : Board} (h : RNode b0 T 2 Lb p) :
+    ∃ m1 m2, m1 ∈ genLegal (lastBoard b0 T) ∧ m2 ∈ genLegal (make (lastBoard b0 T) m1) ∧
+      Lb = b0 :: (T ++ [make (lastBoard b0 T) m1]) ∧ p = make (make (lastBoard b0 T) m1) m2 := by
+  obtain ⟨E, h1, _, hc, h3⟩ := h
+  match E, h1, hc with
+  | [c1, c2], _, ⟨⟨m1, hm1, e1⟩, ⟨m2, hm2, e2⟩, _⟩ =>
+    subst e1
+    subst e2
+    have e : Lb ++ [p] = (b0 :: (T ++ [make (lastBoard b0 T) m1])) ++ [make (make (lastBoard b0 T) m1) m2] := by
+      rw [h3]; simp
+    obtain ⟨e1, e2⟩ := List.append_inj' e rfl
+    simp only [List.cons.injEq, and_true] at e2
+    exact ⟨m1, m2, hm1, hm2, e1, e2⟩
+
+/-- **for `D ≤ 3` the line-dependent injectivity is a theorem.**  Plies 0 and 1 have one line each.  Two lines to one position at
+ply 2 differ in the key of their ply-1 position only; a ply-2 node never looks at it (distance 1), and its children (ply 3, the
+horizon of iteration 3) would compare it with their own key – but a position at ply 1 never recurs at ply 3
+(`C08Transp.transp13`). -/
+theorem rhashInj_le3 {b0 : Board} {T : List Board} {D : Nat} (hD : D ≤ 3)
+    (hlast : Inv D (lastBoard b0 T)) (hnc : NoCollision (lastBoard b0 T) D) : RHashInj b0 T D := by
+  have hinj : HashInj (lastBoard b0 T) D := C08Transp.hashInj_of_noCollision_le3 hlast hD hnc
+  intro k' k Lb' Lb p' p hk' hk hn' hn he
+  obtain ⟨rfl, hv⟩ := hinj k' k p' p hk' hk hn'.reach hn.reach he
+  refine ⟨rfl, hv, ?_⟩
+  intro d hd
+  by_cases hk1 : k' ≤ 1
+  · rw [RNode.line_le1 hk1 hn hn']
+    exact mm_rnode_congr d Lb k' hv
+  · have hk2 : k' = 2 := by omega
+    subst hk2
+    have hD3 : D = 3 := by omega
+    subst hD3
+    obtain ⟨m1, m2, hm1, hm2, rfl, rfl⟩ := hn.two
+    obtain ⟨a1, a2, ha1, ha2, rfl, rfl⟩ := hn'.two
+    -- the same board on both sides
+    rw [mm_rnode_congr d _ 2 hv]
+    generalize hp : make (make (lastBoard b0 T) m1) m2 = p at hv
+    have hr3 : ∀ m ∈ genLegal p, Reach (lastBoard b0 T) 3 (make p m) := by
+      intro m hm
+      rw [← hp] at hm ⊢
+      exact C08Transp.reach_three.mpr ⟨m1, hm1, m2, hm2, m, hm, rfl⟩
+    have h13 := C08Transp.transp13 (lastBoard b0 T) hlast
+    have hne : ∀ (c : Move), c ∈ genLegal (lastBoard b0 T) → ∀ m ∈ genLegal p,
+        key (make (lastBoard b0 T) c) ≠ key (make p m) := by
+      intro c hc m hm hk
+      exact h13 _ _ (reach_one.mpr ⟨c, hc, rfl⟩) (hr3 m hm) ((RepSpec.key_eq_iff _ _).mp hk)
+    have e1 : ∀ c : Move, rnode (b0 :: (T ++ [make (lastBoard b0 T) c])) p 2 =
+        ⟨p, [], 2, key (make (lastBoard b0 T) c) :: (b0 :: T).reverse.map key⟩ := by
+      intro c
+      unfold rnode
+      simp
+    rw [e1 a1, e1 m1]
+    have hrep : isRepetition ⟨p, [], 2, key (make (lastBoard b0 T) a1) :: (b0 :: T).reverse.map key⟩ =
+        isRepetition ⟨p, [], 2, key (make (lastBoard b0 T) m1) :: (b0 :: T).reverse.map key⟩ :=
+      isRepetition_of_occ p [] 2 (occ_head p [] 2 _ _ _)
+    have hd1 : d = 0 ∨ d = 1 := by omega
+    rcases hd1 with rfl | rfl
+    · exact mm_zero_line p [] 2 hrep
+    · apply mm_succ_line 0 p [] 2 hrep
+      intro m hm
+      have hm' : m ∈ genLegal p := by rw [← moves_nil p]; exact hm
+      exact mm_zero_line _ [] 3 (isRepetition_of_occ _ [] 3
+        (occ_second _ [] 3 _ _ _ _ (hne a1 ha1 m hm') (hne m1 hm1 m hm')))
+
+/-- **for `D ≤ 3` no line-dependent hypothesis is needed** -/
+theorem rhyp_le3 {b0 : Board} {T : List Board} {D : Nat} (hD : D ≤ 3) (h : DeepHyp b0 T D) : RHyp b0 T D := by
   obtain ⟨hlast, _⟩ := last_facts h.line h.inv
-  have hinj : HashInj (lastBoard b0 T) D := hashInj_le2 (Inv_mono (by unfold fuelFor; omega) hlast) hD h.nc
   have hqb : QBound (lastBoard b0 T) D :=
     SearchSim.qbound_of_material (Inv_mono (by unfold fuelFor quiescenceFuel; omega) hlast) h.mat
-  refine ⟨h.line, Inv_mono (by unfold fuelFor; omega) h.inv, h.nowrap, ?_, h.coll, ?_, ?_⟩
+  refine ⟨h.line, Inv_mono (by unfold fuelFor; omega) h.inv, h.nowrap, ?_, h.coll,
+    rhashInj_le3 hD (Inv_mono (by unfold fuelFor; omega) hlast) h.nc, ?_⟩
   · intro k Lb p hk1 hk hn
     exact h.nz k p hk1 hk hn.reach
-  · intro k' k Lb' Lb p' p hk' hk hn' hn he
-    obtain ⟨rfl, hv⟩ := hinj k' k p' p hk' hk hn'.reach hn.reach he
-    exact ⟨rfl, hv, by rw [RNode.line_le1 (by omega) hn hn']⟩
   · intro k Lb p hk hn
     exact hqb k p hk hn.reach
+
+theorem rhyp_le2 {b0 : Board} {T : List Board} {D : Nat} (hD : D ≤ 2) (h : DeepHyp b0 T D) : RHyp b0 T D :=
+  rhyp_le3 (by omega) h
 
 /-! ## the nodes, enumerated -/
 
@@ -125,7 +194,8 @@ def lineCollB (b0 : Board) (T : List Board) (D : Nat) : Bool :=
 def injB (b0 : Board) (T : List Board) (D : Nat) : Bool :=
   let ts := tagged b0 T D
   ts.all fun a => decide (D ≤ a.k) || ts.all fun b =>
-    !(a.h == b.h) || (a.k == b.k && decide (vis a.p = vis b.p) && decide (a.Lb.map key = b.Lb.map key))
+    !(a.h == b.h) || (a.k == b.k && decide (vis a.p = vis b.p) &&
+      decide ((a.Lb.reverse.map key).take a.p.halfmove = (b.Lb.reverse.map key).take b.p.halfmove))
 
 /-- `NoCollision` on the neighbourhood of the last game position, executable -/
 def ncB (b0 : Board) (T : List Board) (D : Nat) : Bool :=
@@ -149,6 +219,7 @@ theorem lineColl_of_check {b0 : Board} {T : List Board} {D : Nat} (h : lineCollB
   · exact coll_of_collB h1
 
 theorem inj_of_check {b0 : Board} {T : List Board} {D : Nat} (h : injB b0 T D = true) : RHashInj b0 T D := by
+  apply rhashInj_of_window
   intro k' k Lb' Lb p' p hk' hk hn' hn he
   unfold injB at h
   simp only [List.all_eq_true, Bool.or_eq_true, decide_eq_true_eq] at h
